@@ -56,7 +56,7 @@ FLOAT_DECLS = ["(declare-sort PyFloat 0)", "(declare-fun isfinite (PyFloat) Bool
 FLT_MAX = {16: "65504.0", 32: "340282346638528859811704183484516925440.0"}
 
 
-def shapes_of(t, cap: int = 300) -> typing.List[dict]:
+def shapes_of(t, cap: int = 300, des: bool = False) -> typing.List[dict]:
     """every combination of variable-length array lengths (0..capacity) and union options of the type: the per-shape
     contracts together cover every object of the type (covering obligation: the shape dimensions are exhaustive by
     construction; the generated length asserts and the union's else branch are part of each shape's proof)"""
@@ -85,8 +85,17 @@ def shapes_of(t, cap: int = 300) -> typing.List[dict]:
             return of_comp(dt, path)
         raise NotInSubset(str(dt))
 
-    def of_comp(ct, path: str) -> typing.List[dict]:
+    def of_comp(ct, path: str, top: bool = False) -> typing.List[dict]:
         inner = ct.inner_type
+        if des and isinstance(ct, pydsdl.DelimitedType) and not top:
+            # deserializers: the delimiter header is data; every header value from 0 to the nested extent (+2: surplus
+            # bytes of a newer revision that are skipped) is its own case, crossed with the shapes the nested object has
+            # inside the window the header leaves it
+            body = of_comp_body(inner, path)
+            return prod([{path + "#dh": k} for k in range(0, ct.extent // 8 + 3)], body)
+        return of_comp_body(inner, path)
+
+    def of_comp_body(inner, path: str) -> typing.List[dict]:
         if isinstance(inner, pydsdl.UnionType):
             out = []
             for k, f in enumerate(inner.fields):
@@ -97,7 +106,7 @@ def shapes_of(t, cap: int = 300) -> typing.List[dict]:
             acc = prod(acc, of_type(f.data_type, f"{path}.{f.name}"))
         return acc
 
-    return of_comp(t, "self")
+    return of_comp(t, "self", True)
 
 
 class TypePlan:
@@ -603,6 +612,8 @@ class DecPlan:
         self.uses_float = False
         self.stopped = False
         self.off = 0
+        self.limits: typing.List[str] = []   # byte-index limits of the enclosing delimited windows (templates over {2})
+        self.window_pre: typing.List[str] = []
         self._comp(t, "result", "self", top=True)
         self.bits = self.off
 
@@ -614,7 +625,10 @@ class DecPlan:
         ({0} = input array, {1} = its length, {2} = byte position of the message start)"""
         j, r = divmod(off, 8)
         nb = (r + k + 7) // 8
-        z = KP.le_zx("{0}", "{1}", f"(+ {{2}} {j})" if j else "{2}", max(nb, 1))
+        n_eff = "{1}"
+        for lim in self.limits:  # inside a delimited window the input ends where the window ends (zero extension beyond)
+            n_eff = f"(ite (< {n_eff} {lim}) {n_eff} {lim})"
+        z = KP.le_zx("{0}", n_eff, f"(+ {{2}} {j})" if j else "{2}", max(nb, 1))
         return f"(mod (div {z} {2 ** r}) {2 ** k})" if r else f"(mod {z} {2 ** k})"
 
     def _prim(self, dt, ref: str):
@@ -669,10 +683,27 @@ class DecPlan:
 
     def _comp(self, ct, ref: str, path: str, top: bool = False):
         inner = ct.inner_type
+        window_end = None
         if isinstance(ct, pydsdl.DelimitedType) and not top:
-            raise NotInSubset("nested delimited type (fork_bytes)")
+            hv = self._val(self.off, 32)
+            if self.invalid == path + "#dh":
+                self.selects.append((hv, 32, ("gtrem", self.off + 32)))
+                self.stopped = True
+                return
+            dh = self.shape[path + "#dh"]
+            self.selects.append((hv, 32, dh))
+            self.expect.append(dh)
+            self.off += 32
+            start = self.off
+            # a valid header fits into what remains of the (enclosing window of the) input
+            self.window_pre.append((start, dh))
+            window_end = start + 8 * dh
+            self.limits.append(f"(+ {{2}} {start // 8 + dh})")
         if not top:
-            self.nested.append((ct, rebase_shape(self.shape, path), self.off))
+            inv = None
+            if self.invalid is not None and (self.invalid.startswith(path + ".") or self.invalid.startswith(path + "#") or self.invalid.startswith(path + "[")):
+                inv = "self" + self.invalid[len(path):]  # the offending prefix/tag lies inside this nested object
+            self.nested.append((ct, rebase_shape(self.shape, path), self.off, inv))
         if isinstance(inner, pydsdl.UnionType):
             tw = inner.tag_field_type.bit_length
             if self.invalid == path + "#tag":
@@ -703,6 +734,10 @@ class DecPlan:
                     return
         if not self.stopped:
             self._align(8)
+        if window_end is not None:
+            self.limits.pop()
+            if not self.stopped:
+                self.off = window_end  # the reader continues where the header says the nested object ends
 
     def _field(self, dt, ref, path):
         if isinstance(dt, pydsdl.PrimitiveType):
@@ -735,8 +770,16 @@ def deserialize_contract(lang, t, module_rel: str, cls_path: str, shape: dict, i
 
     pre = ["_des_._bit_offset >= 0", "forall('Int', lambda i: smt('Bool', '(and (<= 0 (select {0} {1})) (<= (select {0} {1}) 255))', _des_._buf._buf.arr, i))"]
     for v, w, lit in p.selects:
-        cond = f"(= {v} {lit})" if not isinstance(lit, tuple) else f"(> {v} {lit[1]})"
+        if isinstance(lit, tuple) and lit[0] == "gtrem":
+            # delimiter header larger than what remains of the input: 8*dh > max(8*n - position, 0)
+            rem = f"(- (* 8 {{1}}) (+ (* 8 {{2}}) {lit[1]}))"
+            cond = f"(> (* 8 {v}) (ite (> {rem} 0) {rem} 0))"
+        else:
+            cond = f"(= {v} {lit})" if not isinstance(lit, tuple) else f"(> {v} {lit[1]})"
         pre.append(f"smt('Bool', '{cond}', {base_args}_des_._bit_offset // 8)")
+    for start, dh in p.window_pre:
+        rem = f"(- (* 8 {{1}}) (+ (* 8 {{2}}) {start}))"
+        pre.append(f"smt('Bool', '(<= {8 * dh} (ite (> {rem} 0) {rem} 0))', {base_args}_des_._bit_offset // 8)")
     label = str(t) + shape_label(shape) + (f"!invalid@{invalid[5:] if invalid.startswith('self.') else invalid}" if invalid else "")
     decls = list(FLOAT_DECLS) + DES_DECLS
     if invalid:
@@ -877,7 +920,43 @@ def install_deserializer_callees(e) -> None:
     arr("fetch_unaligned_array_of_standard_bit_length_primitives", False, False)
     arr("fetch_aligned_array_of_bits", True, True)
     arr("fetch_unaligned_array_of_bits", False, True)
-    e.attr_hooks["Deserializer.consumed_bit_length"] = lambda it, o: it.ctx.get_field(o, "_bit_offset")
+    def consumed(it, o):
+        off = it.ctx.get_field(o, "_bit_offset")
+        if "_fork_base" in it.ctx.heap[o.ref]:
+            return it.binop(ast.Sub(), off, it.ctx.get_field(o, "_fork_base"))
+        return off
+    e.attr_hooks["Deserializer.consumed_bit_length"] = consumed
+
+    def remaining(it, o):
+        n = it.ctx.get_field(it.ctx.get_field(it.ctx.get_field(o, "_buf"), "_buf"), "n")
+        return VInt(f"(- (* 8 {n.t}) {it.ctx.get_field(o, '_bit_offset').t})")
+    e.attr_hooks["Deserializer.remaining_bit_length"] = remaining
+
+    def fork_bytes(it, recv, size):
+        """Deserializer.fork_bytes (ASSUMED, NumPy view semantics): a reader over the same bytes that ENDS `size` bytes
+        after the parent's byte position (zero extension beyond); positions stay absolute, consumed_bit_length counts from
+        the fork point.  A size beyond what remains is a usage error (ValueError) in the real code."""
+        from vk.epy import PyRaise, VBool, VData
+        if r_of(it, recv) != 0:
+            raise PyRaise("ValueError")
+        if isinstance(size, VInt) and _int_lit(size.t) is None:
+            if it.ctx.implied("false"):
+                raise epy.PathEnd()
+            if "!invalid@" in it.ctx.contract.label:
+                raise epy._Return(epy.NONE)  # got past the header check with an oversized header: must-raise fails at the exit
+        k = _lit_arg(size, "fork size")
+        cur = it.ctx.get_field(recv, "_bit_offset")
+        nd = it.ctx.get_field(it.ctx.get_field(recv, "_buf"), "_buf")
+        n = it.ctx.get_field(nd, "n").t
+        rem = f"(- (* 8 {n}) {cur.t})"
+        if it.ctx.branch(VBool(f"(> {8 * k} (ite (> {rem} 0) {rem} 0))"), "fork-larger-than-the-remaining-input"):
+            raise PyRaise("ValueError")
+        end = it.binop(ast.Add(), it.binop(ast.FloorDiv(), cur, VInt("8")), VInt(str(k)))
+        arr2 = it.ctx.new_obj("NDArray", {"arr": it.ctx.get_field(nd, "arr"), "n": VInt(f"(ite (< {n} {end.t}) {n} {end.t})")})
+        zeb = it.ctx.new_obj("ZeroExtendingBuffer", {"_buf": arr2})
+        return it.ctx.new_obj("Deserializer", {"_buf": zeb, "_bit_offset": cur, "_fork_base": cur})
+    e.intrinsics["Deserializer.fork_bytes"] = fork_bytes
+    e.used("Deserializer.fork_bytes: the fork reads the parent's bytes up to `size` bytes after the parent's byte position and zero-extends beyond (NumPy view semantics)")
     epy.EXC_PARENTS["FormatError"] = "ValueError"
 
 
@@ -1006,20 +1085,21 @@ def verify_des_shape(lang, t, shape, invalid, text, module_rel, cls_path, src_ro
             if not m:
                 raise OutOfSubset("cursor is not of the form 8*B + k at a nested decode")
             at = int(m.group(3))
-            hit = [(ct, sh) for ct, sh, off in order if off == at and lang.filter_short_reference_name(ct) == dcls]
+            hit = [(ct, sh, inv) for ct, sh, off, inv in order if off == at and lang.filter_short_reference_name(ct) == dcls]
             if not hit:
                 if it.ctx.implied("false"):
                     raise epy.PathEnd()
                 raise OutOfSubset(f"nested decode of {dcls} at bit {at}: no such nested object in this shape")
-            ct, sh = hit[0]
-            cc, _ = deserialize_contract(lang, ct, "nested", dcls, sh)
-            cc.result = TypePlan(lang, ct, sh).fields
+            ct, sh, inv = hit[0]
+            cc, _ = deserialize_contract(lang, ct, "nested", dcls, sh, inv)
+            if inv is None:
+                cc.result = TypePlan(lang, ct, sh).fields
             return cc
         e.contracts[f"{dcls}._deserialize_"] = sel
     expect = list(p.expect)
 
     def concretize(it, name, v):
-        if _re.fullmatch(r"_(len|tag)\d+_", name) and isinstance(v, VInt) and _int_lit(v.t) is None:
+        if _re.fullmatch(r"_(len|tag)\d+_|_dh_", name) and isinstance(v, VInt) and _int_lit(v.t) is None:
             for L in sorted(set(expect)):
                 if it.ctx.implied(epy.Eq(v.t, str(L))):
                     return VInt(str(L))
@@ -1041,7 +1121,7 @@ def generate_des(args):
         all_types = _flatten(pydsdl.read_namespace(ns_dir, []))
         types = {str(t): t for t in all_types}
         t = types[f"{full_name}.{version[0]}.{version[1]}"]
-        shapes = shapes_of(t)
+        shapes = shapes_of(t, des=True)
         cases = [(sh, None) for sh in shapes]
         seen = set()
         for sh in shapes:  # invalid inputs: the first offending prefix/tag after a valid beginning
@@ -1083,7 +1163,7 @@ def generate_des(args):
 # case-level jobs (one shape / one invalid-input case per worker task): the shapes of one type are independent proofs
 # ---------------------------------------------------------------------------------------------------------------------
 def cases_of(t, direction: str) -> typing.List[typing.Tuple[dict, typing.Optional[str]]]:
-    shapes = shapes_of(t)
+    shapes = shapes_of(t, des=direction == "des")
     cases: typing.List[typing.Tuple[dict, typing.Optional[str]]] = [(sh, None) for sh in shapes]
     if direction == "des":
         seen = set()
